@@ -22,7 +22,11 @@ PROP = dict(
                  'consistent (Go memory model, Intel SDM) are trusted; the stress run is the only evidence at that level',
                  'the 15-instruction ISA semantics in lean/Firefly/Model/Spin.lean (XCHGL with memory and LOCK-prefixed read-modify-write '
                  'atomic; XORL/DECL/CMPXCHGL on memory WITHOUT LOCK are a read step and a write step; CALL clobbers all registers)',
-                 'the Plan 9 assembly / go/ast reader in harness/sync/c08_test.go (fails on anything it does not know)',
+                 'the Plan 9 assembly / go/ast reader in harness/sync/c08_test.go (names the reason in Gen.C08.tieBroken on anything it does not know; '
+                 'integer constants are resolved with go/types; its CFG re-lineariser is NOT trusted: the raw program, the canonical '
+                 'program and the map between them are emitted and the kernel checks that they are the same graph)',
+                 'reading of the certificate: equal graphs (JMP redirects edges, JZ/JNZ one branch node with swapped successors) give '
+                 'the same machine behaviour up to JMP steps — by the semantics in Model/Spin.lean, not proved as a theorem',
                  'the client scanner harness/sync/c08_clients_test.go: syntactic (go/parser, no go/types) scan of every non-test file '
                  'under kernel/ for sync.Spinlock declarations and lock calls; fails on embedded/pointer/container locks, locks '
                  'passed as arguments, lock calls in closures/defer/go/switch, TryToAcquire in a client, nested clients',
@@ -31,7 +35,8 @@ PROP = dict(
                      'found under kernel/ by the regenerated skeletons + clients_disciplined; assumed only for code outside kernel/',
                      'yieldFn, when set, does not touch the lock word (the harness hook that does is modelled as another thread)',
                      'sequentially consistent interleaving of atomic steps'],
-        level_text='tie_intact (the fact generator could translate every instruction, prefix, routine and client of the current source; '
+        level_text='canonical_program_is_source_program (the layout-independent instruction list the proofs are about is, by a kernel-checked '
+                   'graph certificate, the source program); tie_intact (the fact generator could translate every instruction, prefix, routine and client of the current source; '
                    'otherwise the generated file names the reason and nothing checks). Lean theorems about the small-step machine running the REGENERATED archAcquireSpinlock instruction list and '
                    'the regenerated TryToAcquire/Release atomic-op bodies, for every number of threads, every schedule, every '
                    'lock address, attempts value and nil/non-nil yieldFn: mutex, lock_word, acquire_returns_only_when_free, '
